@@ -543,9 +543,28 @@ impl TransportFn<()> for Run {
                 }
                 _ => {
                     // poll
-                    let next = with(|w| w.personality::<VsockDev>().delivered.front().cloned());
-                    let r = mgr.poll();
-                    oplog(|| format!("poll -> {r:?}"));
+                    let mut next = with(|w| w.personality::<VsockDev>().delivered.front().cloned());
+                    // Sometimes the blocking form: wait_for_event() polls until a packet produces
+                    // an event or an error. Only called when it can return: the next packet - one
+                    // already delivered, or one the device still has to deliver while the driver
+                    // waits - is one the protocol says is reported.
+                    let upcoming = next.clone().or_else(|| with(|w| w.personality::<VsockDev>().outbound.front().cloned()));
+                    let blocking = match &upcoming {
+                        Some(raw) => Pkt::decode(raw).is_some_and(|p| yields_result(&m, &p)) && flip(1, 4),
+                        None => false,
+                    };
+                    let r = if blocking {
+                        probe(if next.is_some() { "wait_for_event_ready" } else { "wait_for_event_waits" });
+                        let r = mgr.wait_for_event().map(Some);
+                        next = with(|w| w.personality::<VsockDev>().delivered.front().cloned());
+                        if next.is_none() && !violated() {
+                            violation("vsock-spurious-event", "wait_for_event", format!("nothing was delivered but wait_for_event returned {r:?}"));
+                        }
+                        r
+                    } else {
+                        mgr.poll()
+                    };
+                    oplog(|| format!("{} -> {r:?}", if blocking { "wait_for_event" } else { "poll" }));
                     match next {
                         None => {
                             if r != Ok(None) {
@@ -611,6 +630,33 @@ impl TransportFn<()> for Run {
             with(|w| w.check_no_lost_wakeup("vsock"));
         }
         drop(mgr);
+    }
+}
+
+/// Does the protocol say that this packet, received now, is reported to the application (an event
+/// or an error) rather than handled silently? (Same case analysis as `model_poll`, read-only.)
+fn yields_result(m: &Model, p: &Pkt) -> bool {
+    let announced = p.len as usize;
+    if announced > p.payload.len() {
+        return true;
+    }
+    match p.op {
+        0 => return true,
+        1..=7 => {
+            if p.op != OP_RW && announced != 0 {
+                return true;
+            }
+        }
+        _ => return true,
+    }
+    let found = if p.dst_cid == GUEST { m.find((p.src_cid, p.src_port), p.dst_port) } else { None };
+    match found {
+        None => p.op == OP_REQUEST && p.dst_cid == GUEST && m.listening.contains(&p.dst_port),
+        Some(_) => match p.op {
+            OP_REQUEST => m.listening.contains(&p.dst_port),
+            OP_CREDIT_REQUEST => false,
+            _ => true,
+        },
     }
 }
 
